@@ -104,7 +104,7 @@ def c_single(ctx, args):
         if form == 'mono':
             if not hasattr(o, 'as_monomial'):
                 return None
-            o = o.as_monomial()
+            o = o.as_monomial().set_c(2.5 - 1.5j)          # a monomial carries a coefficient: an in-place update of the operator must leave it alone
         r = o.rotate_by(M.P(g), mask=M.optmask(mask))
         r = r if r is not None else o
         got = M.oP(r)
@@ -112,6 +112,8 @@ def c_single(ctx, args):
         return {'kind': 'oracle', 'where': '%s:%s.rotate_by raised %s' % (be, form, type(e).__name__), 'observed': str(e)[:100], 'expected': ref[0]}
     if [got[0], got[1] % 4] != [ref[0][0], ref[0][1] % 4]:
         return {'kind': 'oracle', 'where': '%s:rotate_by on a single %s differs from the one-row list' % (be, form), 'observed': got, 'expected': ref[0], 'tags': ['single_object', be]}
+    if form == 'mono' and (complex(r.c) != 2.5 - 1.5j or complex(o.c) != 2.5 - 1.5j):
+        return {'kind': 'oracle', 'where': '%s:rotate_by on a monomial changed its coefficient' % be, 'observed': [complex(r.c).real, complex(r.c).imag], 'expected': [2.5, -1.5], 'tags': ['single_object', 'coefficient', be]}
     return None
 
 
